@@ -159,7 +159,15 @@ def _stage_b(ctx, pool, rows):
             fresh = pool.observe_all(sub, sp, cache_parser=False)
             for r, a, b in zip(sub, obs[::16], fresh):
                 if a["obs"] != b["obs"]:
-                    raise vlib.MachineryFailure(f"parser memoisation changed an observation: {r} {a['obs']} vs {b['obs']}")
+                    # the two runs differ: either the memoised parser is not faithful for this implementation, or the
+                    # implementation's answer depends on the calls made before it in the process.  Both are decided by running
+                    # every configuration again the faithful way (a fresh parser per call, as a user's process has) and judging
+                    # those observations - never by a machinery failure.
+                    print(f"note: C20 stage B: memoised and fresh parser disagree on {r} ({a['obs']} vs {b['obs']}); "
+                          f"all {len(rows)} configurations re-run with a fresh parser per call")
+                    obs = pool.observe_all(rows, sp, cache_parser=False)
+                    cache = False
+                    break
             total += len(sub)
         by_key = {}
         failing = []
